@@ -189,8 +189,9 @@ def _alts(nodes):
 
 def _chars_to_bytes(chars):
     """Alternation of the UTF-8 encodings of a non-empty set of characters."""
-    single = sorted(c.encode('utf-8')[0] for c in chars if len(c.encode('utf-8')) == 1)
-    multi = sorted(c.encode('utf-8') for c in chars if len(c.encode('utf-8')) > 1)
+    encs = [c if isinstance(c, bytes) else c.encode('utf-8') for c in chars]     # a bytes item is a ready-made token
+    single = sorted(e[0] for e in encs if len(e) == 1)
+    multi = sorted(e for e in encs if len(e) > 1)
     nodes = ([['cls', single, False]] if single else []) + [_seq(e) for e in multi]
     return _alts(nodes)
 
